@@ -97,7 +97,8 @@ class Aggregate:
         for k, d in res["stats"].items():
             c = self.stats.setdefault(k, Counter())
             c.update(d)
-        self.states.update(res["states"])
+        if len(self.states) < 3000000:       # exact up to 3M, a lower bound beyond
+            self.states.update(res["states"])
         self.digests[res["idx"]] = res["digest"]
         if res["violations"]:
             self.violating.append(res)
